@@ -141,11 +141,14 @@ def check(ctx):
     ff = prog.method("_Neighbors", "fit")
     src = {ast.unparse(s.targets[0]): ast.unparse(s.value) for s in ast.walk(ff.node) if isinstance(s, ast.Assign)
            and len(s.targets) == 1}
+    # (self.decisions is the argument itself once `self.decisions = decisions` has run, so either spelling of the
+    # binarizer's first operand denotes the batch in fit; the pairing in partial_fit is C06 R6.7 / C14 R14.3)
+    conv = {"self._binarize_ts_rewards(decisions, rewards)", "self._binarize_ts_rewards(self.decisions, rewards)"}
     okh = src.get("self.decisions") == "decisions" and src.get("self.contexts") == "contexts" and \
-        src.get("self.rewards") in ("rewards", "self._binarize_ts_rewards(decisions, rewards)")
+        src.get("self.rewards") in ({"rewards"} | conv)
     allr = [ast.unparse(s.value) for s in ast.walk(ff.node) if isinstance(s, ast.Assign)
             and ast.unparse(s.targets[0]) == "self.rewards"]
-    okh = okh and set(allr) <= {"rewards", "self._binarize_ts_rewards(decisions, rewards)"} and "rewards" in allr
+    okh = okh and set(allr) <= ({"rewards"} | conv) and "rewards" in allr
     ctx.check(okh, "R3.4", "_Neighbors.fit replaces the stored history by its arguments", ff.node, ff,
               "stores %s" % src, construct="def _Neighbors.fit")
     # other writers of the history
